@@ -560,6 +560,7 @@ from ..variants import V  # noqa: E402
 
 _D = 'src/emsarray/operations/depth.py'
 VARIANTS = [
+    V('C13', 'depth-coordinate-needs-every-marker', 'src/emsarray/conventions/_base.py', "                data_array.attrs.get('positive', '').lower() in {'up', 'down'}\n                or data_array.attrs.get('axis') == 'Z'\n                or data_array.attrs.get('cartesian_axis') == 'Z'\n                or data_array.attrs.get('coordinate_type') == 'Z'\n                or data_array.attrs.get('standard_name') == 'depth'", "                data_array.attrs.get('positive', '').lower() in {'up', 'down'}\n                and data_array.attrs.get('axis') == 'Z'\n                and data_array.attrs.get('cartesian_axis') == 'Z'\n                and data_array.attrs.get('coordinate_type') == 'Z'\n                and data_array.attrs.get('standard_name') == 'depth'", 'R13.7'),
     V('C13', 'second-coordinate-of-a-dimension-skipped', _D, "    new_dataset = dataset.copy()\n    for variable in depth_coordinates:\n        variable = utils.name_to_data_array(dataset, variable)\n        name = variable.name\n",
       "    new_dataset = dataset.copy()\n    seen = set()\n    for variable in depth_coordinates:\n        variable = utils.name_to_data_array(dataset, variable)\n        name = variable.name\n        if variable.dims[0] in seen:\n            continue\n        seen.add(variable.dims[0])\n", 'R13.5'),
     V('C13', 'benign-same-coordinate-listed-twice-recognised-by-name', _D, "    new_dataset = dataset.copy()\n    for variable in depth_coordinates:\n        variable = utils.name_to_data_array(dataset, variable)\n        name = variable.name\n",
